@@ -773,6 +773,7 @@ func c20Shapes(tier string) []treeShape {
 		{"pipe", leaf + " | " + leaf, 2},
 		{"subshell", "( " + leaf + " )", 1},
 		{"trap-int", "trap '' INT; " + leaf, 1},
+		{"trap-int-term", "trap '' INT TERM HUP QUIT; " + leaf + " >/dev/null 2>&1 & " + leaf, 2},
 	}
 	var level2 []struct {
 		n, s   string
